@@ -65,6 +65,22 @@ def host_pool_bytes():
 
 
 HOST_TOKENS = [b"a", b"1", b"-", b".", b"_", b"!"]
+# every LDH character for itself (a rule keyed on one particular letter - 'x' after '0', 'e' between digits - is invisible when
+# 'a' stands for all letters), plus two upper-case letters
+FULL_LDH_TOKENS = [bytes([c]) for c in b"abcdefghijklmnopqrstuvwxyz0123456789-."] + [b"X", b"E"]
+
+
+def numeric_looking_hosts():
+    """Names whose labels are numbers to some other parser (inet_aton hex / octal, floats, huge integers) in 1-4 label shapes."""
+    from . import words
+    out = set()
+    L = words.NUMERIC_LOOKING
+    for a in L:
+        out.update([a, a + b".", a + b".com", b"www." + a, a + b".0.0.1", b"1.2.3." + a, b"127." + a, a + b"." + a, b"1." + a + b".3.4",
+                    a.upper(), a + b".1", b"1." + a])
+        for b in L[:12]:
+            out.add(a + b"." + b)
+    return sorted(x for x in out if x)
 
 
 def w_host_enum(exe, tokens, k, prefix_idx, underscore, fns=("adom", "udom0")):
@@ -274,6 +290,21 @@ def literal_domains(tier, rng):
         for i in range(len(tag)):
             for c in range(1, 256):
                 out.add(b"[" + tag[:i] + bytes([c]) + tag[i + 1:] + body + b"]")
+    # tokens of other address syntaxes (second tag, 0x prefix, zone id, prefix length, ...) inserted at every position of valid literals,
+    # and every byte value substituted / inserted at every position of two of them
+    from . import words
+    bases = [b"[1.2.3.4]", b"[IPv6:1:2:3:4:5:6:7:8]", b"[IPv6:2001:0db8::1]", b"[IPv6:::1]", b"[IPv6:::ffff:192.0.2.128]", b"[IPv6:1::2]",
+             b"[2001:db8::a]", b"[IPv6:fe80::1]", b"[IPv6:0:0:0:0:0:0:0:0]", b"[255.255.255.255]"]
+    for g in bases:
+        for i in range(1, len(g)):
+            for t in words.LITERAL_TOKENS:
+                out.add(g[:i] + t + g[i:])
+    for g in (b"[IPv6:2001:0db8:85a3::8a2e:0370:7334]", b"[IPv6:::ffff:10.0.0.1]") if tier == "quick" else bases:
+        for i in range(1, len(g)):
+            for c in range(1, 256):
+                out.add(g[:i] + bytes([c]) + g[i + 1:])
+                if c < 0x80:
+                    out.add(g[:i] + bytes([c]) + g[i:])
     out.update([b"[", b"[]", b"[[]]", b"[]]", b"[ ]", b"[a]", b"[IPv6:]", b"[IPv6:::]", b"[::]", b"[:::]", b"[1.2.3.4",
                 b"[aaaaaaaa]:b:c", b"[1.2.3.4]:1::", b"[12345678]", b"[1234567]", b"[123456789]", b"[1.1.1.1]", b"[1.1.1.]",
                 b"[.1.1.1.1]", b"[1111111]", b"[IPv6:1]", b"[IPv6:1:2]"])
